@@ -123,6 +123,27 @@ Query(op, d, s) ==
 
 \* square root as a RELATION: any root may be returned; "none" exactly for non-squares.
 \* y is the value handed back (ignored when the answer is "none").
+\* ---- operations specific to the tower types (beyond the Field interface)
+\* norm to the level below; conjugation over it (quadratic top level)
+Norm(d) == /\ K >= 1 /\ UNCHANGED regs /\ ev' = [op |-> "norm", d |-> d, ret |-> TNormDown(F, K, regs[d])]
+Conj(d) == /\ K >= 1 /\ Deg(F, K) = 2
+           /\ regs' = [regs EXCEPT ![d] = TConj(F, K, regs[d])] /\ ev' = [op |-> "conj", d |-> d]
+\* multiplication by an element s of the subfield at level j < K (mul_by_fp, mul_by_fp2, mul_assign_by_basefield ...)
+MulBase(d, j, s) == /\ j < K /\ TIsElem(F, j, s)
+                    /\ regs' = [regs EXCEPT ![d] = TMulLevel(F, K, regs[d], j, s)] /\ ev' = [op |-> "mul_base", d |-> d, j |-> j, s |-> s]
+\* sparse multiplications (mul_by_01, mul_by_1, mul_by_014, mul_by_034): the product with the element whose named slots hold cs
+Sparse(d, slots, cs) == /\ K >= 2 /\ (Deg(F, K) = 3 \/ Deg(F, K - 1) = 3)
+                        /\ \A i \in 1..Len(cs) : TIsElem(F, SlotLevel(F, K), cs[i])
+                        /\ regs' = [regs EXCEPT ![d] = TMul(F, K, regs[d], SlotElem(F, K, slots, cs))]
+                        /\ ev' = [op |-> "sparse", d |-> d, slots |-> slots, cs |-> cs]
+\* the fast paths for elements of the cyclotomic subgroup agree with the generic operations THERE
+CycSq(d)  == /\ K >= 1 /\ InCyc(F, K, regs[d])
+             /\ regs' = [regs EXCEPT ![d] = TSqr(F, K, regs[d])] /\ ev' = [op |-> "cyc_sq", d |-> d]
+CycInv(d) == /\ K >= 1 /\ InCyc(F, K, regs[d])
+             /\ regs' = [regs EXCEPT ![d] = TInv(F, K, regs[d])] /\ ev' = [op |-> "cyc_inv", d |-> d]
+CycExp(d, e) == /\ K >= 1 /\ InCyc(F, K, regs[d])
+                /\ regs' = [regs EXCEPT ![d] = TPow(F, K, regs[d], e)] /\ ev' = [op |-> "cyc_exp", d |-> d, e |-> e]
+
 SqrtOK(d, some, y) == IF TIsSquare(F, K, regs[d])
                       THEN some /\ TIsElem(F, K, y) /\ TSqr(F, K, y) = regs[d]
                       ELSE ~some
